@@ -144,6 +144,12 @@ def make_cell(rng: Rng, alg: str, enc: str, form: str):
     block = 16
     if r < 0.1:
         pt = b""
+    elif r < 0.2:
+        # octets that are themselves a (possibly unterminated) raw DEFLATE stream: only an *unauthenticated* zip
+        # indication can make a receiver inflate them
+        import zlib
+        c = zlib.compressobj(9, zlib.DEFLATED, -15)
+        pt = rng.pick([b"c", b"K", b"{}", b"\x03\x00", c.compress(b"inflated " * rng.randrange(1, 9)) + c.flush()])
     elif r < 0.4:
         pt = rng.bytes_(rng.pick([block - 1, block, block + 1, 2 * block]))
     elif r < 0.6:
